@@ -135,6 +135,11 @@ BodiesK == {Bn(">", K, NumA("0")), Bn("=", K, Own("x")), Bn("<", K, Fld(VarR("@A
             Un("not", Bn("implies", Fld(VarR("@A"), "b"), Bn(">", K, NumA("0")))),
             Un("not", Bn("implies", Bn("<", K, Fld(VarR("@A"), "n")), Own("p"))),
             Bn("implies", Bn(">", K, NumA("0")), Bn(">", Fld(VarR("@A"), "n"), K)),
+            \* the bound variable only as an INNER index of an accessor chain
+            Bn(">", Idx(Fld(Idx(Own("zs"), K), "ys"), NumA("0")), NumA("0")),
+            Bn(">", Idx(Idx(Own("mm"), K), NumA("0")), NumA("0")),
+            Bn("or", Bn(">", Idx(Idx(Own("mm"), K), NumA("0")), NumA("0")), Bn(">", Fld(VarR("@A"), "n"), NumA("1"))),
+            Bn(">", Fld(Fld(Idx(Own("zs"), K), "w"), "v"), NumA("0")),
             \* the bound variable used only as an array index in one conjunct
             Bn("and", Bn(">", Idx(Own("ys"), K), NumA("0")), Bn("<", K, NumA("1"))),
             Bn("and", Bn(">", Idx(Own("ys"), K), NumA("0")), Own("p")),
